@@ -406,6 +406,8 @@ def b_hasattr(it, args, kw, fr):
     nm = it.concrete(args[1])
     if isinstance(o, VObj) and nm is not _NOCONST:
         return VBool(nm in o.fields or it.find_method(o.cls, nm) is not None)
+    if isinstance(o, VTuple) and o.ntfields is not None and nm is not _NOCONST:
+        return VBool(nm in o.ntfields or hasattr(tuple, nm))
     raise OutOfSubset("hasattr")
 
 
@@ -823,6 +825,18 @@ def seq_append(it, sz, xz):
 
 
 def m_seq(it, s, meth, args, kwargs, fr):
+    old_z = s.z
+    hook = getattr(it.reg, "seq_op_hook", None)
+    if hook is not None:
+        hook(it, s, "pre:" + meth, old_z, args)
+    r = _m_seq(it, s, meth, args, kwargs, fr)
+    if hook is not None and s.z is not old_z:
+        # a property module may spell out element-wise consequences of the list operation
+        hook(it, s, meth, old_z, args)
+    return r
+
+
+def _m_seq(it, s, meth, args, kwargs, fr):
     a = [it.force(x) for x in args]
     et = s.elem
     if meth == "append":
@@ -951,6 +965,8 @@ def m_set(it, s, meth, args, kwargs):
     if h is not None:
         # methods of a set subclass (e.g. EmptyableSet.when_next_empty), modelled by the property module
         return h(it, s, meth, args, kwargs, None)
+    if meth == "isdisjoint" and isinstance(a[0], VSet) and a[0].z is not None:
+        return VBool(z3.SetIntersect(s.z, a[0].z) == z3.K(s.z.sort().domain(), z3.BoolVal(False)))
     raise OutOfSubset(f"set method {meth}")
 
 
